@@ -222,7 +222,7 @@ func runC17Case(dir string, peers []c17Peer, tag string, res *ev.Result) {
 				return
 			}
 			cut.StallReads()
-			for k := 0; k < 6; k++ {
+			for k := 0; k < 10; k++ {
 				go func(k int) {
 					ctx, cancel := context.WithTimeout(context.Background(), 3*time.Second)
 					defer cancel()
@@ -231,7 +231,7 @@ func runC17Case(dir string, peers []c17Peer, tag string, res *ev.Result) {
 					rp.Runtime.UpdateContainers(ctx, &api.UpdateContainersRequest{Update: []*api.ContainerUpdate{u}})
 				}(k)
 			}
-			time.Sleep(150 * time.Millisecond)
+			time.Sleep(350 * time.Millisecond) // the echoed replies have filled the socket by now
 			wg.Add(1)
 			go func() {
 				defer wg.Done()
@@ -349,6 +349,13 @@ func runC17Case(dir string, peers []c17Peer, tag string, res *ev.Result) {
 			why = "index"
 		default:
 			why = "mask"
+		}
+		if r.spec.Stall == "drop-after-register" {
+			// registered in time with a well-formed name and index, then went away: whether its configuration and
+			// synchronization were already on their way when the connection closed is a matter of timing; only
+			// that it does not disturb the others is asserted (above)
+			res.Seen("reject-or-accept|" + why)
+			continue
 		}
 		if syncs > 0 || reqs > 0 {
 			viol("ill-formed-activated/"+strings.SplitN(why, ":", 2)[0], fmt.Sprintf("%s must not become active, yet it received %d synchronization messages and %d events", desc, syncs, reqs))
@@ -542,7 +549,7 @@ func init() {
 	register(&Check{
 		ID: "C17", Level: "fault_enumeration", MinNontriv: 40,
 		Anchors: []string{"pkg/adaptation/plugin.go", "pkg/adaptation/adaptation.go", "pkg/api/plugin.go", "pkg/api/event.go"},
-		Rule:    "raw protocol peers through the real socket ahead of one good stub plugin: names {empty, 1 byte, 300 bytes, unicode, with '-' and '/'}, indices {empty, 1-3 digits, letters, signs, spaces, full-width and Arabic-Indic digits, control bytes}, Configure answers {each valid bit, 0, all valid, each invalid bit 13..31 alone and with a valid bit, -1, seeded random 32-bit masks}, stall points {never registers, never answers Configure, drops after connect / after register / in Configure}, 1-4 such plugins ahead of the good one; oracle: a peer is synchronized and receives events iff name non-empty, index [0-9][0-9], timely, mask 0 or within the valid events; the good plugin is configured (bounded by silent peers x timeouts + 2 s; hang rule 15 s + 1 s), synchronized and receives the next event; socket side in its own child: umask {000,002,022,077} x 0-3 missing directory levels (every directory NRI creates has mode & 077 = 0, socket accepts), and external connections disabled (no socket file, connect fails); a peer registering 1.6 s after connecting with registration timeout 400 ms < request timeout 5 s; external connections disabled with the option before / after the socket path / alone; distinct = distinct accept/reject reasons with their index/mask values",
+		Rule:    "raw protocol peers through the real socket ahead of one good stub plugin: names {empty, 1 byte, 300 bytes, unicode, with '-' and '/'}, indices {empty, 1-3 digits, letters, signs, spaces, full-width and Arabic-Indic digits, control bytes}, Configure answers {each valid bit, 0, all valid, each invalid bit 13..31 alone and with a valid bit, -1, seeded random 32-bit masks}, stall points {never registers, never answers Configure, drops after connect / after register / in Configure}, 1-4 such plugins ahead of the good one; oracle: a peer is synchronized and receives events iff name non-empty, index [0-9][0-9], timely, mask 0 or within the valid events; the good plugin is configured (bounded by silent peers x timeouts + 2 s; hang rule 15 s + 1 s), synchronized and receives the next event; socket side in its own child: umask {000,002,022,077} x 0-3 missing directory levels (every directory NRI creates has mode & 077 = 0, socket accepts), and external connections disabled (no socket file, connect fails); a peer registering 1.6 s after connecting with registration timeout 400 ms < request timeout 5 s; external connections disabled with the option before / after the socket path / alone; peers that never register but send one empty update, or flood the runtime-service connection with protocol-violating frames; distinct = distinct accept/reject reasons with their index/mask values",
 		Assumptions: []string{
 			"registration timeout 800 ms and request timeout 500 ms are set through NRI's public setters; at most three silent peers precede the good plugin so that the stub's own 5 s registration timeout is not the limiting factor",
 		},
